@@ -108,6 +108,13 @@ CHECKS = {
             "Label sets rendered under the real HTML5/XHTML renderers; round trip (same number/title/id/url per renderer); for every saved file every prefix, every single-bit flip (files <= 450 B), generated splices/opcode-aware edits/foreign pickles: restore never raises, yields a subset of the saved labels unchanged, the following persist does not raise and leaves a loadable complete file that round-trips; state-machine histories over two renderers. ~100k faults per quick run.",
             "Trusted: models/pauxmodel.py; corrupted pickles are loaded only under resource limits; adversarial pickles are out of scope (statement: interrupted writes and bit rot).",
             "DESIGN.md C20"),
+
+    "C11": ("hypothesis+atheris",
+            "exploration",
+            "round-trip property testing: verbatim bodies must come back character for character (Hypothesis + atheris), reconstructed math source must equal the written formula token for token with user macros expanded by an independent expander",
+            "Verbatim/verbatim*/\\verb/\\verb* bodies built from adversarial fragments (partial end markers, %, ^^, braces, blank runs, non-ASCII; the end delimiter destroyed by construction) with every legal \\verb delimiter: textContent == body exactly and the text after the construct is processed normally. Formulas of a depth<=4 grammar in 12 placements with 0-3 user macros: tokens(node.source) == tokens(expected) blanks aside, and the same for the \\( \\) / \\[ \\] payloads of HTML5 output after unescaping and the documented < -> \\lt mapping. Exploration.",
+            "Trusted: models/mathtok.py (token splitter and parameter-substitution expander, no plasTeX import); plasTeX's documented delimiters for reconstructed math; identity expectation for verbatim bodies incl. framing newlines.",
+            "DESIGN.md C11"),
 }
 
 PENDING_REASON = "check not built yet in this session (planned, see DESIGN.md section 7); nothing is claimed for it"
